@@ -262,18 +262,34 @@ fn nest_doc(t: &mut simcore::Tape, fl: Flavour) -> (Vec<u8>, usize) {
 fn draw_rel_ref(t: &mut simcore::Tape) -> String {
     const SEG: &[&str] = &["a", "b.c", "..", ".", "", "x:y", "%c3%a9", "\u{e9}", "~", "a;b=c", "@"];
     let mut s = String::new();
+    const SEG_NZ: &[&str] = &["a", "b.c", "..", ".", "x:y", "%c3%a9", "\u{e9}", "~", "a;b=c", "@"];
+    let more = |t: &mut simcore::Tape, s: &mut String| {
+        for _ in 0..t.below(3) {
+            s.push('/');
+            s.push_str(SEG[t.below(SEG.len())]);
+        }
+    };
     match t.draw(5) {
-        0 => s.push_str("//example.org"),
-        1 => s.push('/'),
+        0 => {
+            // network-path reference: authority, then path-abempty
+            s.push_str("//example.org");
+            more(t, &mut s);
+        }
+        1 => {
+            // path-absolute: "/" [ segment-nz *( "/" segment ) ] (a second '/' right away
+            // would start an authority)
+            s.push('/');
+            if t.flag() {
+                s.push_str(SEG_NZ[t.below(SEG_NZ.len())]);
+                more(t, &mut s);
+            }
+        }
         2 => {}
         _ => {
-            // path-noscheme: the first segment must not contain ':'
+            // path-noscheme: the first segment must be non-empty and must not contain ':'
             s.push_str(["a", "b.c", "..", ".", "%41", "\u{e9}"][t.below(6)]);
+            more(t, &mut s);
         }
-    }
-    for _ in 0..t.below(3) {
-        s.push('/');
-        s.push_str(SEG[t.below(SEG.len())]);
     }
     if t.chance(1, 2) {
         s.push('?');
